@@ -1296,6 +1296,31 @@ class Environment:
 ####################
 
 
+def _nested_sample_site(eqn_params):
+    """Parameters of the first sampling site inside the sub-programs held by an
+    equation's parameters (None when there is none)."""
+
+    def sub_jaxprs(v):
+        if isinstance(v, ClosedJaxpr):
+            yield v.jaxpr
+        elif isinstance(v, Jaxpr):
+            yield v
+        elif isinstance(v, (tuple, list)):
+            for x in v:
+                yield from sub_jaxprs(x)
+
+    for v in eqn_params.values():
+        for sub in sub_jaxprs(v):
+            for eqn in sub.eqns:
+                primitive, inner_params = PPPrimitive.unwrap(eqn.primitive)
+                if primitive in (sample_p, adev_sample_p):
+                    return inner_params
+                found = _nested_sample_site(eqn.params)
+                if found is not None:
+                    return found
+    return None
+
+
 @dataclass
 class Seed:
     """Interpreter that eliminates probabilistic primitives with explicit randomness.
@@ -1414,6 +1439,13 @@ class Seed:
                 )
 
             else:
+                # A primitive this interpreter does not look inside (checkpoint,
+                # custom_jvp / custom_vjp calls, while_loop, nested jit, ...): if a
+                # sampling site is left in one of its sub-programs, binding it would
+                # draw from hidden randomness, so raise the site's lowering error.
+                site_params = _nested_sample_site(eqn.params)
+                if site_params is not None:
+                    raise site_params["lowering_exception"]
                 outvals = eqn.primitive.bind(*args, **params)
 
             if not eqn.primitive.multiple_results:
